@@ -602,10 +602,53 @@ func c12FailureProbes() ([]*zr.Program, []string) {
 	return progs, shapes
 }
 
+// c12Derived: "a read returns the last value written at that position or key": what 逆序, 所有值,
+// 所有索引, 首项 / 末项 hand out are values of their own - changing them in place, or through a loop
+// over them, writes no position or key of the collection they were taken from (hand-written
+// programs, expected display written down)
+func c12Derived(c *Ctx) {
+	type hp struct{ name, src, want string }
+	hps := []hp{
+		{"reverse/nested-item-appended", "令集 = 【【1】，【2】】\n以集之逆序#1（后增：5）\n输出 集\n", "list[list[num(1)],list[num(2)]]"},
+		{"reverse/number-changed-in-loop", "令集 = 【1，2，3】\n以项遍历 集之逆序：\n\t以项（自增：10）\n输出 集\n", "list[num(1),num(2),num(3)]"},
+		{"reverse/twice-then-write", "令集 = 【【1】，【2】】\n令反 = 集之逆序之逆序\n以反#1（后增：7）\n输出【集，反】\n", "list[list[list[num(1)],list[num(2)]],list[list[num(1),num(7)],list[num(2)]]]"},
+		{"values/nested-item-appended", "令典 = 【“a” = 1，“b” = 【1】】\n以典之所有值#2（后增：5）\n输出 典\n", `dict["a"=num(1),"b"=list[num(1)]]`},
+		{"values/number-changed-in-loop", "令典 = 【“a” = 1，“b” = 2】\n以项遍历 典之所有值：\n\t以项（自增：10）\n输出 典\n", `dict["a"=num(1),"b"=num(2)]`},
+		{"values/dict-item-written", "令典 = 【“a” = 【“x” = 1】】\n令值 = 典之所有值\n值#1#“x” = 9\n输出 典\n", `dict["a"=dict["x"=num(1)]]`},
+		{"first-item/appended", "令集 = 【【1】，【2】】\n以集之首项（后增：5）\n以集之末项（后增：6）\n输出 集\n", "list[list[num(1),num(5)],list[num(2),num(6)]]|list[list[num(1)],list[num(2)]]"},
+		{"keys/changed-in-loop", "令典 = 【“a” = 1，“b” = 2】\n令键 = 典之所有索引\n以键（后增：“c”）\n输出【典之所有索引，典之长度】\n", `list[list[text("a"),text("b")],num(2)]`},
+	}
+	reqs := []Req{}
+	for _, h := range hps {
+		reqs = append(reqs, execReq(h.src))
+	}
+	c.runBatches(reqs, 8, func(i int, req *Req, resp *Resp) {
+		c.Eval()
+		h := hps[i]
+		got := resp.Kind
+		if resp.Kind == "value" && resp.Val != nil {
+			got = resp.Val.String()
+		} else if resp.Kind == "error" && resp.Err != nil {
+			got = fmt.Sprintf("error:%d %s", resp.Err.Code, resp.Err.Msg)
+		}
+		c.Nontrivial("derived|" + h.name + "|" + resp.Kind)
+		ok := false
+		for _, w := range strings.Split(h.want, "|") {
+			if got == w {
+				ok = true
+			}
+		}
+		if !ok {
+			c.Violation("derived:"+h.name, fmt.Sprintf("%s: the program yields %s, expected %s\nprogram:\n%s", h.name, got, h.want, h.src), map[string]interface{}{"req": req})
+		}
+	})
+}
+
 func checkC12(c *Ctx) {
-	c.rule = "(1) element-API histories on lists and dictionaries: all histories up to length 3 (quick) / 4 (thorough) over 14 list and 8 dictionary operations from {empty, 1, 3 elements}, plus random histories of length 5..60; after every step the returned value, the whole collection and the key-order invariant (duplicate-free permutation of the key set) are compared with a sequence / ordered-map model, failing operations must leave the collection unchanged; (2) the same as Zn programs: after every operation the display, 长度, 所有索引/所有值 and the 遍历 trace are compared with the reference evaluator (dictionary literals with duplicate keys, remove+reinsert, numeric keys, # reads/writes in and out of range, 逆序 twice, 后增+末项, copies); (3) failure probes: out-of-range / missing-key operations inside a method whose handler displays the collection; (4) 生成JSON key order equals insertion order. distinct_nontrivial = distinct histories (short ones exactly, long ones by length+prefix) / feature sets"
+	c.rule = "(1) element-API histories on lists and dictionaries: all histories up to length 3 (quick) / 4 (thorough) over 14 list and 8 dictionary operations from {empty, 1, 3 elements}, plus random histories of length 5..60; after every step the returned value, the whole collection and the key-order invariant (duplicate-free permutation of the key set) are compared with a sequence / ordered-map model, failing operations must leave the collection unchanged; (2) the same as Zn programs: after every operation the display, 长度, 所有索引/所有值 and the 遍历 trace are compared with the reference evaluator (dictionary literals with duplicate keys, remove+reinsert, numeric keys, # reads/writes in and out of range, 逆序 twice, 后增+末项, copies); (3) failure probes: out-of-range / missing-key operations inside a method whose handler displays the collection; (4) 生成JSON key order equals insertion order; (5) hand-written programs that change what 逆序 / 所有值 / 所有索引 hand out (in place, through a loop, through an index) and then read the collection they were taken from. distinct_nontrivial = distinct histories (short ones exactly, long ones by length+prefix) / feature sets"
 	c.assumptions = []string{"寻找 may report the first match in either base (草案07 contradicts itself); 新增, 读取, 拼接, 首项/末项/左移/右移 on empty lists are not judged", "indices are integers"}
 	checkC12API(c)
+	c12Derived(c)
 	rng := c.Rand("c12")
 	var progs []*zr.Program
 	var shapes []string
